@@ -8,7 +8,7 @@ Vocabulary (JSON as handed to TLC):
   inp   = {"cars": [{"name","kind","bases":[..],"vars":{k:VAL}}],        the car names given on the command line, in order
            "bases": {name: {"vars": {k:VAL}, "tree": [FILE]}},
            "params": {k:VAL}, "tpl": {cid: [referenced variable names]}, "shipped": [FILE], "preserve": bool,
-           "node": {"vars": {k:VAL}, "default_data": str, "watch": [{"p": token, "inHome": bool}]}}
+           "node": {"vars": {k:VAL}, "default_data": str, "watch": [{"p": token, "inHome": bool, "pre": bool}]}}
   out   = {"err", "names", "paths", "vars", "final": {"captured", "vars"}, "tree": [{"path", "content": [SEG]}],
            "dataPaths", "home", "after": {"exists": {token: bool}, "same": bool}}
   SEG   = {"t": cid, "vals": [[str, ...], ...]}         one rendering of a template (values of the referenced variables) or a blob
@@ -62,7 +62,8 @@ class Layout:
 
     def real(self, s):
         for path, tok in self.tokens:
-            if s == tok or s.startswith(tok + "/"):
+            # "$ES/data" is below the ES home, "$ES-data" / "$ES.data0" are SIBLINGS whose name starts with the name of the ES home
+            if s.startswith(tok) and (len(s) == len(tok) or not (s[len(tok)].isalnum() or s[len(tok)] == "_")):
                 return path + s[len(tok) :]
         return s
 
@@ -280,9 +281,11 @@ def node_record(inp, mat):
     toks = set()
 
     def scan(vm):
-        for v in vm.values():
+        for k, v in vm.items():
             for s in v["v"]:
-                if s.startswith("$DATA/"):
+                # every directory some source proposes as a data path (wherever it is: on another root, inside the installation,
+                # next to it, ...) is watched, whether or not that source wins
+                if s.startswith("$DATA/") or (k == "data_paths" and s.startswith("$") and s != "$ES"):
                     toks.add(s)
 
     for c in inp["cars"]:
@@ -290,7 +293,10 @@ def node_record(inp, mat):
     for bd in inp["bases"].values():
         scan(bd["vars"])
     scan(inp["params"])
-    watch = [{"p": "$ES", "inHome": True}, {"p": "$ES/data", "inHome": True}] + [{"p": t, "inHome": False} for t in sorted(toks)]
+    toks.discard("$ES/data")
+    # inHome: below the ES home directory (path containment); pre: the path STRING starts with the ES home path
+    watch = [{"p": "$ES", "inHome": True, "pre": True}, {"p": "$ES/data", "inHome": True, "pre": True}]
+    watch += [{"p": t, "inHome": t.startswith("$ES/"), "pre": t.startswith("$ES")} for t in sorted(toks)]
     return {"vars": nv, "default_data": "$ES/data", "home": "$ES", "watch": watch}
 
 
